@@ -146,6 +146,10 @@ func apiTable(m *am.Machine, ctx context.Context) []call {
 		{"WhenQueueEnds", func(r *rand.Rand) { m.WhenQueueEnds() }},
 		{"WhenDisposed", func(r *rand.Rand) { m.WhenDisposed() }},
 		{"NewStateCtx", func(r *rand.Rand) { m.NewStateCtx(pick(r)) }},
+		// the event-bound variant, as called by a goroutine forked from a handler which kept its event
+		{"NewStateCtxEv", func(r *rand.Rand) {
+			m.NewStateCtx(pick(r), &am.Event{Name: "AState", MachineId: m.Id(), TransitionId: "t"})
+		}},
 		{"HandlersBind", func(r *rand.Rand) {
 			id, err := m.HandlersBindMaps(map[string]am.HandlerNegotiation{"BEnter": func(e *am.Event) bool { return true }},
 				map[string]am.HandlerFinal{"BState": func(e *am.Event) { m.Is1("A") }}, am.BindOpts{})
@@ -219,7 +223,7 @@ func runMachineProgram(seed int64, g, ops int, handlers bool, theme int) {
 	themes := [][]string{
 		nil, nil, // the whole table
 		{"Add1", "Remove1", "Toggle1", "WhenArgs", "Is1", "Set"},
-		{"Add", "Remove", "When1", "WhenNot1", "WhenTime1", "WhenTicks", "WhenQuery", "NewStateCtx", "WhenQueue", "WhenQueueEnds"},
+		{"Add", "Remove", "When1", "WhenNot1", "WhenTime1", "WhenTicks", "WhenQuery", "NewStateCtx", "NewStateCtxEv", "WhenQueue", "WhenQueueEnds"},
 		{"Add1", "Remove1", "HandlersBind", "Handlers", "TracerBind", "Tracers", "Eval"},
 		{"Add1", "Remove1", "AddErr", "RemoveErr", "Err", "IsErr", "WhenErr", "String", "Inspect", "Export", "Clock", "Time"},
 		{"Add", "Set", "Queue", "IsQueued", "WillBe1", "WillBeRemoved1", "QueueLen", "CanAdd1", "CanRemove1", "PrependMut"},
